@@ -5,7 +5,8 @@ For every decoder `K.dec` of `Model/Codec/Basic.lean` the incremental-parsing la
 (`Model/Parser.lean`): a successful parse consumes a prefix of its input, is unaffected by what
 follows, and EVERY shorter input is `notEnough` — never ok, never another error, never a panic.
 The proofs apply the closure lemmas of `Lemmas/Parser.lean` along the decoder's syntax; the two loops
-(ENVCHANGE, CAPABILITY) use `incr_loop`, ENVCHANGE (fuel = input length) also `incr_of_fuel`.
+(ENVCHANGE, CAPABILITY) use `incr_loop`; `envLoop_fuel` / `capLoop_fuel` show that their fuel (the
+declared length) is never exhausted.
 
 All twelve decoders of the group satisfy the law (the length checks of EED, ERROR, ENVCHANGE and
 CAPABILITY and the option check of LOGOUT come after all reads of the bytes they talk about; every
@@ -50,30 +51,61 @@ theorem Capability.dec_incr : Incr Capability.dec := by
   refine incr_bind incr_u16 (fun total => incr_bind (incr_loop _ _ capStep_incr _ _) (fun st => ?_))
   incr_auto
 
-theorem EnvChange.decFuel_incr (f : Nat) : Incr (EnvChange.decFuel f) := by
-  unfold EnvChange.decFuel
+theorem EnvChange.dec_incr : Incr EnvChange.dec := by
+  unfold EnvChange.dec
   refine incr_bind incr_u16 (fun length => incr_bind (incr_loop _ _ envStep_incr _ _) (fun st => ?_))
   incr_auto
 
-theorem envStep_progress : Progress envStep := by
-  constructor
-  · intro st; rfl
-  · intro st s st' k h
+/-! ### the fuel of the two loops is never exhausted
+
+`loop` answers `short` when it runs out of fuel; the Go loops have no such exit. With the declared
+length as fuel that exit is unreachable: once the fuel covers `length - n`, more fuel changes nothing. -/
+
+theorem Member.dec_count {s : Bytes} {m : Member} {i n : Nat} (h : Member.dec s = .ok (m, i) n) :
+    3 ≤ i := by
+  unfold Member.dec at h
+  obtain ⟨_, _, _, _, h, _⟩ := bind_ok_inv h
+  obtain ⟨_, _, _, _, h, _⟩ := bind_ok_inv h
+  obtain ⟨_, _, _, _, h, _⟩ := bind_ok_inv h
+  obtain ⟨_, _, _, _, h, _⟩ := bind_ok_inv h
+  obtain ⟨_, _, _, _, h, _⟩ := bind_ok_inv h
+  simp only [Pure.pure, P.pure] at h
+  injection h with h
+  injection h with _ h
+  omega
+
+theorem envLoop_fuel (L f : Nat) (st : EnvState) (s : Bytes) (hf : L - st.1 ≤ f) :
+    loop (fun st : EnvState => decide (st.1 < L)) envStep (f + 1) st s =
+      loop (fun st : EnvState => decide (st.1 < L)) envStep f st s := by
+  refine loop_fuel_enough _ envStep (fun st => L - st.1) ?_ ?_ f st s hf
+  · intro st hc; simp at hc; omega
+  · intro st s st' k hc h
+    simp at hc
     unfold envStep at h
-    obtain ⟨a, n, m, h1, _, hk⟩ := bind_ok_inv h
-    unfold Member.dec at h1
-    obtain ⟨a1, n1, m1, h2, _, hn⟩ := bind_ok_inv h1
-    have := u8_ok_inv h2
+    obtain ⟨⟨m, i⟩, _, _, h1, h2, _⟩ := bind_ok_inv h
+    have := Member.dec_count h1
+    simp only [Pure.pure, P.pure] at h2
+    injection h2 with h2
+    subst h2
+    show L - (st.1 + i) < L - st.1
     omega
 
-theorem EnvChange.decFuel_fuelOK : FuelOK EnvChange.decFuel := by
-  unfold EnvChange.decFuel
-  exact fuelOK_bind_left P.u16 _ (fun length =>
-    fuelOK_bind_right _ _ (fuelOK_loop _ envStep envStep_progress (0, [])))
-
-/-- ENVCHANGE: the fuel is the length of the input, which the loop can never exhaust -/
-theorem EnvChange.dec_incr : Incr EnvChange.dec :=
-  incr_of_fuel EnvChange.decFuel EnvChange.decFuel_incr EnvChange.decFuel_fuelOK
+theorem capLoop_fuel (L f : Nat) (st : CapState) (s : Bytes) (hf : L - st.1 ≤ f) :
+    loop (fun st : CapState => decide (st.1 < L)) capStep (f + 1) st s =
+      loop (fun st : CapState => decide (st.1 < L)) capStep f st s := by
+  refine loop_fuel_enough _ capStep (fun st => L - st.1) ?_ ?_ f st s hf
+  · intro st hc; simp at hc; omega
+  · intro st s st' k hc h
+    simp at hc
+    unfold capStep at h
+    obtain ⟨_, _, _, _, h, _⟩ := bind_ok_inv h
+    obtain ⟨capLen, _, _, _, h, _⟩ := bind_ok_inv h
+    obtain ⟨_, _, _, _, h, _⟩ := bind_ok_inv h
+    simp only [Pure.pure, P.pure] at h
+    injection h with h
+    subst h
+    show L - (st.1 + 2 + capLen) < L - st.1
+    omega
 
 /-- C07 on encodings: whatever a decoder with the law parses completely is "not enough bytes" on
 every proper prefix, and parsing the complete bytes afterwards gives the same result. -/
@@ -90,8 +122,8 @@ example : Logout.dec [5] = .err 1 := by decide
 
 /-! ### C07 on the encodings of C06: every proper prefix of a valid encoding is "not enough bytes"
 
-(the layout of the TDS specification where the reader reads it; for ERROR the layout its reader
-actually reads; for the client-to-server kinds the encoding the writer produces) -/
+(the layout of the TDS specification for the server-to-client kinds; the encoding the writer produces
+for the client-to-server kinds) -/
 
 theorem Done.prefix_not_enough (k : Done) (h : C06.Basic.Done.WF k) (j : Nat)
     (hj : j < (Done.encBody k).length) : Done.dec ((Done.encBody k).take j) = .notEnough :=
@@ -102,9 +134,8 @@ theorem EED.prefix_not_enough (k : EED) (h : C06.Basic.EED.WF k) (j : Nat)
   (incr_prefixes EED.dec_incr (C06.Basic.EED.spec_roundtrip k h)).1 j hj
 
 theorem Error.prefix_not_enough (k : Error) (h : C06.Basic.Error.WF k) (j : Nat)
-    (hj : j < (C06.Basic.Error.readerBody k).length) :
-    Error.dec ((C06.Basic.Error.readerBody k).take j) = .notEnough :=
-  (incr_prefixes Error.dec_incr (C06.Basic.Error.reads_own_layout k h)).1 j hj
+    (hj : j < (Error.encSpecBody k).length) : Error.dec ((Error.encSpecBody k).take j) = .notEnough :=
+  (incr_prefixes Error.dec_incr (C06.Basic.Error.spec_roundtrip k h)).1 j hj
 
 theorem LoginAck.prefix_not_enough (k : LoginAck) (h : C06.Basic.LoginAck.WF k) (j : Nat)
     (hj : j < (LoginAck.encSpecBody k).length) :
